@@ -10,7 +10,7 @@ EXPLANATION = (
     "config counterpart to the Options field that is read from it; (K3) for each tracked dest the sentinel parser declares "
     "the same option strings and arity with a sentinel default, every short option of the main parser is known to it "
     "(argparse clusters short options), and both parse the same argv; (K4) the auto-locked set equals the --auto preset and "
-    "locks neither width nor discovery settings; (K5) file-name order, nesting of the name loop inside the upward walk, "
+    "locks neither width nor discovery settings; (K3) both parsers declare every tracked option alike, parse the same argv and are built with the same matching settings (allow_abbrev, prefix_chars); (K5) file-name order, nesting of the name loop inside the upward walk, "
     "is_file and [tool.flowmark] guards on every successful return; (K6) truth-table evaluation of the merge loop's skip "
     "guards: each is implied by its atom (value is None / name in explicit_flags / is_auto and name in auto_locked), the loop "
     "visits fields(FlowmarkConfig), setattr stores getattr's value under the same name; (K7) kebab table entries map k to "
